@@ -86,7 +86,7 @@ def target_filling_ratio_from_target_width(self: BaseRollPass):
         return self.target_width / self.usable_width
 
 
-@BaseRollPass.target_cross_section_area
+@BaseRollPass.target_cross_section_area(tryfirst=True)  # an explicitly given ratio takes precedence over the derivation from target_width
 def target_cross_section_area_from_target_cross_section_filling_ratio(self: BaseRollPass):
     if self.has_set_or_cached("target_cross_section_filling_ratio"):
         return self.target_cross_section_filling_ratio * self.usable_cross_section.area
